@@ -111,6 +111,35 @@ static void p0_run(uint64_t idx, vh_rng_t * rng) {
     if (vh_chance(rng, 1, 12)) overrun = 1;
     if (vh_chance(rng, 1, 10)) zero_flush = 1;
     vh_case_desc("A = \"%s\" (%d messages%s) then B = \"%s\"", vh_esc(all.p, all.len), na, overrun ? " + overrunning chunk" : "", vh_esc(B.p, B.len));
+    if (idx % 4 == 2) {
+        /* the same comparison through the line parser itself: the application hands complete lines to SCPI_Parse, re-using ONE
+         * line buffer (same address; B is also tried padded to A's length, so that address and length of consecutive lines agree) */
+        static char * line; int pad = vh_chance(rng, 1, 2);
+        if (!line) line = (char *) malloc(4096);
+        if (pad && na == 1 && A[0].len > B.len && B.len > 0 && B.p[B.len - 1] == '\n' && !strchr(vh_buf_cstr(&B), '\r')) { /* white space before the terminator is legal */
+            size_t add = A[0].len - B.len; B.len--; while (add--) vh_buf_addc(&B, ' '); vh_buf_addc(&B, '\n');
+        }
+        if (all.len < 4000 && B.len < 4000) {
+            v = vh_ctx_new(cmds, bufsize, 64, 1024); v->sigs = sigs; v->nsigs = NSIG;
+            memcpy(line, B.p, B.len); line[B.len] = 0; SCPI_Parse(v->ctx, line, (int) B.len);
+            capture(v, &alone);
+            vh_ctx_free(v);
+            v = vh_ctx_new(cmds, bufsize, 64, 1024); v->sigs = sigs; v->nsigs = NSIG;
+            for (i = 0; i < na; i++) { memcpy(line, A[i].p, A[i].len); line[A[i].len] = 0; SCPI_Parse(v->ctx, line, (int) A[i].len); }
+            vh_ctx_clear_capture(v);
+            memcpy(line, B.p, B.len); line[B.len] = 0; SCPI_Parse(v->ctx, line, (int) B.len);
+            capture(v, &after);
+            vh_eval(2);
+            if (alone.len != after.len || memcmp(alone.p, after.p, alone.len) != 0) {
+                snprintf(key, sizeof key, "C09:trace-of-B-differs:direct-line-parse%s", (na == 1 && A[0].len == B.len) ? ":same-length-lines" : "");
+                vh_violation(key, "SCPI_Parse on one re-used line buffer: A = \"%s\"; B = \"%s\": B alone -> [%s]; B after A -> [%s]", vh_esc(all.p, all.len), vh_esc(B.p, B.len), vh_esc(alone.p, alone.len), vh_esc(after.p, after.len));
+            }
+            vh_ctx_free(v);
+            vh_count("pairs.direct_line_parse", 1);
+            if (na == 1 && A[0].len == B.len) vh_count("pairs.direct_line_parse_same_length", 1);
+        }
+        return;
+    }
     /* B alone */
     v = vh_ctx_new(cmds, bufsize, 64, 1024); v->sigs = sigs; v->nsigs = NSIG;
     vh_input(v, B.p, B.len);
@@ -212,7 +241,7 @@ static void p1_run(uint64_t idx, vh_rng_t * rng) {
 
 int main(int argc, char ** argv) {
     static const vh_phase_t phases[] = { { "pairs", p0_count, p0_run }, { "units within one message", p1_count, p1_run } };
-    vh_require("unit.X_raises_errors"); vh_require("unit.block_data_without_header_after_unfinished_block"); vh_require("unit.both_units_raise_errors");
+    vh_require("pairs.direct_line_parse_same_length"); vh_require("unit.X_raises_errors"); vh_require("unit.block_data_without_header_after_unfinished_block"); vh_require("unit.both_units_raise_errors");
     vh_require("A.sequence_of_messages"); vh_require("A.raises_errors"); vh_require("A.leaves_block_unfinished_or_overlong"); vh_require("A.ends_with_compound_path");
     vh_require("A.overrun_with_pending_bytes"); vh_require("B.uses_relative_header"); vh_require("B.responds"); vh_require("A.responds"); vh_require("B.block_data_without_header_after_unfinished_block");
     return vh_main(argc, argv, "C09", phases, 2);
